@@ -585,10 +585,33 @@ def message_parser_consumes_bodies(ctx, P):
     ctx.floor(P + ':S17-4:message-parser-drains:floor', 'into_inner() sites of packet body readers in the message parser', n, 6)
 
 
+def packet_bodies_through_body_reader(ctx, P):
+    """`PacketBodyReader` is the one reader that enforces the framing of a body (a fixed-length body that ends early is an error, partial
+    chunks are followed, indeterminate lengths run to the end).  The generic packet parser `Packet::from_reader` must only ever be
+    handed such a reader: behind a plain `Take` a stream cut inside a body ends cleanly and the packet is accepted short."""
+    n = 0
+    for p, r in sorted(ctx.f.bodies.items()):
+        if '::tests::' in p or r.get('derived'):
+            continue
+        b = ctx.wrap(r)
+        cs = b.calls(r'Packet::from_reader$')
+        if not cs:
+            ctx.functions.discard(p)
+            continue
+        for k, (i, t) in enumerate(cs):
+            n += 1
+            tys = [b.r['locals'][a['l']]['ty'] for a in t['args'][1:] if 'l' in a]
+            ok = bool(tys) and all('packet_body::PacketBodyReader<' in (ty or '') for ty in tys)
+            ctx.check('%s:S17-4:body-reader:%s#%d' % (P, p.split('::{closure')[0], k), 'R-who', 'Packet::from_reader is handed a PacketBodyReader (the reader that reports a body shorter than declared)',
+                      ok, function=p, site=site(b, i), missing=None if ok else 'body reader type is %s: a truncated body is not detected' % tys)
+    ctx.floor(P + ':S17-4:body-reader:floor', 'call sites of Packet::from_reader', n, 1)
+
+
 def run(ctx):
     P = 'C17'
     partial_emitters(ctx, P)
     message_parser_consumes_bodies(ctx, P)
+    packet_bodies_through_body_reader(ctx, P)
     running_offset_emitters(ctx, P)
     legacy_header_self_consistent(ctx, P)
     legacy_header_tag_range(ctx, P)
